@@ -18,7 +18,7 @@ import tempfile
 import numpy as np
 
 from vlib import codec, refs
-from vlib.ctx import Acc, HarnessError, VERIF, stopped
+from vlib.ctx import scratch_dir, Acc, HarnessError, VERIF, stopped
 
 LEVEL = "exploration"
 
@@ -351,7 +351,7 @@ def run(ctx):
         ctx.take(r)
     n_nojit = ctx.cov["evaluations"]
     # JIT-compiled kernel: same enumeration in a separate process
-    out = tempfile.mkdtemp(prefix="c01_", dir=os.path.join(VERIF, "replays"))
+    out = scratch_dir("c01_")
     path = os.path.join(out, "jit.json")
     try:
         p = subprocess.run([sys.executable, "-m", "vlib.run", "C01", "--tier", ctx.tier,
